@@ -9,4 +9,4 @@ CONSTANTS
   MaxQuery = 2
   Fault = "log-twice"
   MaxLen = 2
-INVARIANTS LogExactlyOnce TypeOK StatsTotals DeniedLeavesNoTrace EffectOfSettings ViewSound
+INVARIANTS LogExactlyOnce TypeOK StatsTotals DeniedLeavesNoTrace EffectOfSettings ViewSound AttributionsAgree
